@@ -22,6 +22,9 @@ def placeOf : String → Option Place
   | "badPath" => some .badPath | "uploads" => some .uploads | "dropBox" => some .dropBox
   | "plain" => some .plain | _ => none
 
+def placeStr : Place → String
+  | .badPath => "badPath" | .uploads => "uploads" | .dropBox => "dropBox" | .plain => "plain"
+
 def banOptOf : String → Option BanOpt
   | "absent" => some .absent | "temporary" => some .temporary | "permanent" => some .permanent
   | "other" => some .other | _ => none
